@@ -338,6 +338,9 @@ TTagged(vs, lay) ==
    tags |-> [i \in DOMAIN vs |-> FieldByName(vs[i], "s_kind").d.v], lay |-> lay, tk |-> "s_t", ck |-> "s_c"]
 TaggedLeaves == { TTagged(vs, lay) : vs \in { <<V1, V2>>, <<V1, V2, V3>>, <<V3, V1>>, <<V4, V2>>, <<N1, N2>>, <<VB, VC>>, <<VC, VB>> },
                                      lay \in {"int", "ext", "adj"} }
+                \* ... and under conditions (the shipped ListNotEmpty[...] is Annotated[List[...], len_range(min=1)])
+                \cup { TAnn(TSeq("list", TTagged(<<V1, V2>>, lay)), <<[k |-> "lenge", n |-> 1]>>) : lay \in {"int", "ext", "adj"} }
+                \cup { TAnn(TTagged(<<V1, V2>>, lay), <<[k |-> "utrue"]>>) : lay \in {"int", "ext", "adj"} }
 
 (* C11: members that overlap *)
 UPoolQ == { TInt, TFloat, TS("complex"), TS("bool"), TStr, TS("fraction"), TS("date"), TS("datetime"), TS("none"),
@@ -348,6 +351,8 @@ UPoolQ == { TInt, TFloat, TS("complex"), TS("bool"), TStr, TS("fraction"), TS("d
 UPoolT == UPoolQ \cup { TTagged(<<V1, V2>>, "ext"), TTagged(<<V1, V2>>, "int"), TS("decimal"), TS("time"), TS("any"), TS("pattern"), TS("path"), EnumI, SubS, TOpt(TInt),
                         TDict("dict", TStr, TInt), TSeq("set", TInt) }
 UnionLeaves(P) == { TUnion(<<a, b>>) : a, b \in P } \cup { TOpt(TTagged(<<V1, V2>>, lay)) : lay \in {"int", "ext", "adj"} }
+                  \* a class and its subclass as members, in both orders (an instance of the subclass is an instance of both)
+                  \cup { TUnion(<<VB, VC>>), TUnion(<<VC, VB>>) }
 UnionNest(U) == { TUnion(<<U, m>>) : m \in {TStr, TFloat, TS("none")} } \cup { TUnion(<<m, U>>) : m \in {TStr, TInt} }
                 \cup { TOpt(U), TSeq("list", U), TDict("dict", TStr, U), ClsS(U) }
 
@@ -390,6 +395,9 @@ KRenameF == TCls("KRenameF", << FldX("s_a", TInt, NoDef, "F", <<"s_x">>, "s_x", 
 KExcl == TCls("KExcl", << Fld("s_a", TInt, NoDef), FldX("s_b", TInt, DefVal(MkInt(5)), "F", <<"s_b">>, "s_b", "T", "T") >>,
               <<"struct", "tuple">>, "struct")
 \* (fields are listed in effective order: keyword-only ones behind the positional ones; C17 derives that order)
+\* tuple output with an excluded field that is not the last positional one (what is written shifts the later positions)
+KExclT == TCls("KExclT", << Fld("s_a", TInt, NoDef), FldX("s_b", TInt, DefVal(MkInt(5)), "F", <<"s_b">>, "s_b", "T", "T"),
+                            Fld("s_c", TStr, DefVal(MkStr("s_c"))) >>, <<"struct", "tuple">>, "tuple")
 KKw == TCls("KKw", << Fld("s_a", TInt, NoDef), Fld("s_c", TStr, DefVal(MkStr("s_c"))),
                       FldX("s_b", TInt, DefVal(MkInt(5)), "T", <<"s_b">>, "s_b", "F", "T") >>, <<"struct", "tuple">>, "struct")
 KInit == TCls("KInit", << Fld("s_a", TInt, NoDef), FldX("s_b", TStr, DefVal(MkStr("s_empty")), "F", <<"s_b">>, "s_b", "T", "F"),
@@ -420,7 +428,7 @@ KTupKw == TCls("KTupKw", << Fld("s_a", TInt, NoDef), FldX("s_b", TInt, DefVal(Mk
 KNest == TCls("KNest", << Fld("s_a", KAlias, NoDef), Fld("s_b", TSeq("list", KTup), DefFac(MkList(<<>>))) >>, <<"struct", "tuple">>, "struct")
 KOpt == TCls("KOpt", << Fld("s_a", TOpt(TInt), DefVal(MkInt(5))), Fld("s_b", TUnion(<<TInt, TStr>>), DefVal(MkInt(5))) >>,
              <<"struct", "tuple">>, "struct")
-ClsLeaves == { KAlias, KInNames, KRenameF, KExcl, KKw, KInit, KInitT, KInitFac, KFac, KHook, KChild, KHookSet, KHookF, KExtra, KTup, KTupKw, KNest, KOpt }
+ClsLeaves == { KAlias, KInNames, KRenameF, KExcl, KExclT, KKw, KInit, KInitT, KInitFac, KFac, KHook, KChild, KHookSet, KHookF, KExtra, KTup, KTupKw, KNest, KOpt }
 
 (* C15: the naming rules.  A class is written with a SPELLING (class-level rename styles, per-field    *)
 (* rename / aliases / in_names / out_name) and the rules below derive each field's input names and    *)
